@@ -11,6 +11,7 @@ import (
 	sdk "github.com/cosmos/cosmos-sdk/types"
 
 	"mods.irisnet.org/modules/htlc"
+	htlctypes "mods.irisnet.org/modules/htlc/types"
 	"mods.irisnet.org/modules/oracle"
 	"mods.irisnet.org/modules/random"
 	"mods.irisnet.org/modules/service"
@@ -233,6 +234,13 @@ func (m *Exporter) roundTrip(w *engine.World, prep bool, when string) {
 				sec, variant, h, rawDiff(g1[sec], g2[sec]))
 		}
 	}
+	// (2b) as-is exports: the module stores themselves - including the indexes, queues and
+	// counters that no genesis field and no query shows - must come back identical, except
+	// for what a module documents as dropped on export
+	if !prep {
+		compareStores(w, src, tgt, h)
+	}
+
 	// (3) durable queries answer identically on source and target
 	type named struct {
 		name string
@@ -332,4 +340,98 @@ func strDiff(x, y string) string {
 		return s[lo:hi]
 	}
 	return fmt.Sprintf("first difference at byte %d: source ...%s... re-imported ...%s...", i, cut(x), cut(y))
+}
+
+// exempt decides whether a store entry is outside what an as-is export promises to carry:
+//   - htlc 0x01: records of contracts that are no longer open (the module exports open
+//     contracts only; C12 lists "open hash-locked contracts");
+//   - mt 0x02: the stored token record (the import writes the exported supply into it,
+//     at run time the supply lives under its own prefix; the MTs query is compared instead);
+//   - nft 0x05: a class total-supply entry of zero (absent and zero are the same supply);
+//   - random 0x01: fulfilled numbers are not genesis data (C12 lists pending requests);
+//   - service 0x09-0x16, 0x18-0x20: batch queues and their height markers, requests, active
+//     markers, responses, earned-fee tallies, the per-block counter: the in-flight items the
+//     module documents as dropped / refunded on export;
+//   - token 0xf0: the harness's own ERC20 ledger.
+func exempt(n *engine.Node, store string, key, value []byte) bool {
+	if len(key) == 0 {
+		return false
+	}
+	switch store {
+	case "htlc":
+		if key[0] == 0x01 {
+			var h htlctypes.HTLC
+			if err := n.App.AppCodec().Unmarshal(value, &h); err == nil && h.State != htlctypes.Open {
+				return true
+			}
+		}
+	case "mt":
+		return key[0] == 0x02
+	case "nft":
+		if key[0] == 0x05 {
+			for _, b := range value {
+				if b != 0 {
+					return false
+				}
+			}
+			return true
+		}
+	case "random":
+		return key[0] == 0x01
+	case "service":
+		return (key[0] >= 0x09 && key[0] <= 0x16) || key[0] == 0x18 || key[0] == 0x19 || key[0] == 0x20
+	case "token":
+		return key[0] == 0xf0
+	}
+	return false
+}
+
+// compareStores walks the ten irismod stores of source and re-imported node in key order.
+func compareStores(w *engine.World, src, tgt *engine.Node, h int64) {
+	for _, name := range IrismodSections {
+		ka, kb := src.App.GetKey(name), tgt.App.GetKey(name)
+		if ka == nil || kb == nil {
+			continue
+		}
+		ia := uncached(src, h).KVStore(ka).Iterator(nil, nil)
+		ib := uncached(tgt, h).KVStore(kb).Iterator(nil, nil)
+		w.Hit("C12.store_comparisons")
+		next := func(n *engine.Node, it interface {
+			Valid() bool
+			Next()
+			Key() []byte
+			Value() []byte
+		}) {
+			for it.Valid() && exempt(n, name, it.Key(), it.Value()) {
+				it.Next()
+			}
+		}
+		next(src, ia)
+		next(tgt, ib)
+		for ia.Valid() || ib.Valid() {
+			var what, key string
+			switch {
+			case !ib.Valid() || (ia.Valid() && bytes.Compare(ia.Key(), ib.Key()) < 0):
+				what, key = "missing-after-import", string(ia.Key())
+			case !ia.Valid() || bytes.Compare(ia.Key(), ib.Key()) > 0:
+				what, key = "extra-after-import", string(ib.Key())
+			case !bytes.Equal(ia.Value(), ib.Value()):
+				what, key = "value-differs", string(ia.Key())
+			}
+			if what != "" {
+				pfx := key
+				if len(pfx) > 0 {
+					pfx = fmt.Sprintf("%02x", key[0])
+				}
+				w.Violate("C12", "store-differs/"+name+"/"+pfx+"/"+what, "after an as-is export of height %d and re-import, the %s store differs: %s at key %x (prefix %s)", h, name, what, key, pfx)
+				break
+			}
+			ia.Next()
+			ib.Next()
+			next(src, ia)
+			next(tgt, ib)
+		}
+		ia.Close()
+		ib.Close()
+	}
 }
